@@ -33,11 +33,12 @@ use redis_sim::redis::{Command, CommandExecutor, RespCodec, RespValue, Value};
 use serde_json::json;
 use tokio::io::{AsyncReadExt, AsyncWriteExt, DuplexStream};
 
-/// Which variant of the connection handler /repo currently has — the ONE place to edit when the
-/// proposed fix "a protocol error between MULTI and EXEC flags the transaction" (branch
-/// fixes-txn-s3) lands: the model then follows `Txn.stepFixed`, the oracle expects EXECABORT, and
-/// the known finding C05:execabort:missing:protocol-error-not-flagged moves to `fixed`.
-pub const CODE_PROTO_ERROR_FLAGS: bool = false;
+/// Which variant of the connection handler /repo currently has: true since the `fix:` commit
+/// 6b9d6a7 "a protocol error between MULTI and EXEC discards the transaction" — the model follows
+/// `Txn.stepFixed`, the oracle expects EXECABORT, the former finding
+/// C05:execabort:missing:protocol-error-not-flagged is listed under `fixed` and its witness must
+/// PASS (audit corpus fault:protocol-error-in-multi). false = the pinned behaviour (`Txn.step`).
+pub const CODE_PROTO_ERROR_FLAGS: bool = true;
 
 pub(crate) const KEYS: [&str; 6] = ["k", "n", "l", "w", "ab", "x"];
 /// never written: target of the no-op fillers that keep the second connection in lock step
@@ -2072,13 +2073,15 @@ fn audit_corpus() -> Vec<(&'static str, usize, Option<ConnectionConfig>, Option<
             Step::In(Inp::Cmd(Cmd::Get("k".into()))),
             Step::In(Inp::Cmd(Cmd::Get("n".into()))),
         ]));
-        // … and a protocol error between MULTI and EXEC: error reply, the transaction goes on unflagged
+        // … and a protocol error between MULTI and EXEC: error reply, the transaction is flagged (since 6b9d6a7)
         v.push(("fault:protocol-error-in-multi", shards, None, None, vec![
             Step::In(Inp::Multi),
             Step::In(set("k", "1")),
             Step::In(Inp::Proto),
             Step::In(set("n", "2")),
             Step::In(Inp::Exec(vec![])),
+            // protocol_error_not_flagged_counterexample — repaired (6b9d6a7): EXEC must answer EXECABORT
+            Step::ExpectExec("C05:execabort:missing:protocol-error-not-flagged", "-execabort"),
             Step::In(Inp::Proto),
             Step::In(Inp::Multi),
             Step::In(Inp::Proto),
@@ -2571,7 +2574,7 @@ const AUDIT: &str = r####"{
  "3 comparisons at equality": "CLOSED: resp_values_equal on every GET-reply pair that can occur (nil / bytes / WRONGTYPE × same / same length / different length: matrix rows same-value-rewrite, same-length-replacement, change-and-change-back, delete-recreate); executor-level Value equality per type incl. score-only changes; queue length 0 / 1 / 2 / 3000; deadline of a watched key 1 ms before / exactly at / 1 ms after the EXEC instant (executor level, evicting and lazy clock); transaction_errors with 0 / 1 / several refused inputs; buffer length just below / at / above min_pipeline_buffer (13 / 14 / 60 with 13- and 14-byte reads).",
  "4 configuration": "CLOSED: every field of ConnectionConfig is generated input (1 in 4 random sessions + 70 scripted ones): read_buffer_size 1 / 2 / 7 / 13 / 14 / 16 / 64 / 8192 (frames split at every byte), min_pipeline_buffer 0 / 1 / 13 / 14 / 60 / 2^20, batch_threshold 0 / 1 / 2 / 3 / 64, max_buffer_size 256 / 2^20 / default, with transactions sent in one write that begin with and contain runs of GETs and SETs (the shapes the batch collectors and the fast path look for: they must stay out of a transaction); shard counts 1 and 4. OPEN: ACL configuration (feature off), TLS.",
  "5 capacity thresholds": "CLOSED: queue of 3000 commands filled 64 per write (beyond read buffer, duplex buffer and any Vec growth step), EXEC reply of 3000 results; 300 keys in one WATCH and 200 further WATCH commands (snapshot list of 500 entries, one awaited GET each at EXEC); 70 000-byte value inside a transaction; max_buffer_size crossed between MULTI and EXEC (error reply, connection closed, nothing applied).",
- "6 fault kinds": "CLOSED: connection closed between MULTI and EXEC (clean, and with half a frame written), closed by the server for buffer overflow, protocol error between MULTI and EXEC and outside (error reply, buffer dropped, transaction NOT flagged — the code as it is, table_protocol_error), run-time failing commands inside EXEC (WRONGTYPE, not an integer, overflow, no such key), refused inputs (unknown command, arity error, channel stub), a reply that never comes (20 s timeout → named outcome). OPEN: a shard actor that dies mid-EXEC (`ERR shard response failed`) — no way to kill an actor from outside.",
+ "6 fault kinds": "CLOSED: connection closed between MULTI and EXEC (clean, and with half a frame written), closed by the server for buffer overflow, protocol error between MULTI and EXEC and outside (error reply, buffer dropped, transaction flagged since fix 6b9d6a7: Txn.stepFixed, error_reply_flags_fixed; the pinned behaviour stays as protocol_error_not_flagged_counterexample), run-time failing commands inside EXEC (WRONGTYPE, not an integer, overflow, no such key), refused inputs (unknown command, arity error, channel stub), a reply that never comes (20 s timeout → named outcome). OPEN: a shard actor that dies mid-EXEC (`ERR shard response failed`) — no way to kill an actor from outside.",
  "7 history shapes": "CLOSED: twelve transactions in a row on one connection ending in every way (EXEC, DISCARD, EXECABORT, WATCH abort) followed by every other; re-WATCH of a watched key; WATCH carried across a failed DISCARD / EXEC outside MULTI; a transaction abandoned by a closed connection followed by a fresh connection; expired-but-unevicted watched key at the executor level (lazy clock: recorded, see assumptions); delete-and-recreate, change-and-change-back, type change; emptied-then-refilled collections.",
  "8 node-global state": "CLOSED: the shard executors' own transaction state is node-global and is reached by no path of the production handler (source scan: the handler intercepts MULTI / EXEC / DISCARD / WATCH; a queued UNWATCH reaches shard 0 and finds nothing) but IS the state that SimulationHarness / RedisServer / the replicated front end expose (driven; two known findings); the script cache (EVAL / SCRIPT LOAD / EVALSHA inside EXEC vs outside); the ACL manager (ACL SETUSER / DELUSER inside EXEC vs outside); the wall clock (TTL flags after EXEC vs the twin). OPEN: metrics counters (not observable by a client).",
  "9 observations": "CLOSED: every reply of every input, the typed value of every key of the session after every EXEC / DISCARD / close (member by member), which keys carry a deadline after EXEC vs the sequential twin (C05:exec:ttl-differs-from-sequential), the NEXT state of the machine after every (state, input) pair — observed through probes (queue length, error flag, whether the old and the newly named keys are still watched). OPEN: exact TTL values (wall clock), INFO counters.",
